@@ -29,7 +29,9 @@ UncommittedChanges when the tree is to be destroyed and has changes, and Unsynce
 by a reference has a different tip than the reference target.
 P5 (K1) upgrade.Convert.convert: needs_format_conversion / can_convert_format / check_conversion_target(format) all
 precede backup_bzrdir() and every converter step: an incompatible target is refused before anything is moved.
-Does not decide: the converters themselves, nor that the copied data is equal (values); those stay not applicable.
+P6 (K1) Converter3to4.convert: create_dirstate_data, then update_format, then remove_xml_files — the marker is switched
+between writing the new data and deleting the old.
+Does not decide: the other converters, nor that the copied data is equal (values); those stay not applicable.
 """
 DESTROY = {"destroy_branch", "destroy_repository", "destroy_workingtree"}
 
@@ -109,8 +111,19 @@ def run(ctx):
         ctx.check("P5-upgrade-preflight", wu, bool(c_) and gu.always_before(c_, bk)[0], f"{nm}() is consulted before the backup")
     ctx.sample({"tag_handover": pairs, "destructive_calls": sorted({g.nodes[i].text()[:50] for i in destructive})})
 
+    # ---- P6: the tree format converter keeps a readable tree at every instant ------------------------------------------
+    # Converter3to4.convert: new-format data is written, then the format marker is switched, and only then are the
+    # old-format files removed — at every crash point the marker names a format whose data is complete.
+    W4 = "breezy/bzr/workingtree_4.py"
+    f6, g6, w6 = fn_cfg(ctx, W4, "Converter3to4.convert")
+    mk6 = need(w6, calling(g6, attr="create_dirstate_data"), "self.create_dirstate_data(tree)")
+    up6 = need(w6, calling(g6, attr="update_format"), "self.update_format(tree)")
+    rm6 = need(w6, calling(g6, attr="remove_xml_files"), "self.remove_xml_files(tree)")
+    k1_before(ctx, "P6-converter-marker-between", w6, g6, mk6, up6, "the dirstate is written before the format marker is switched")
+    k1_before(ctx, "P6-converter-marker-between", w6, g6, up6, rm6, "the format marker is switched before the old-format files are removed (an interrupted conversion leaves either a complete format-3 or a complete format-4 tree)")
 
 MUTANTS = [
+    Mutant("format marker switched after the old files are gone", "breezy/bzr/workingtree_4.py", "            self.update_format(tree)\n            self.remove_xml_files(tree)\n", "            self.remove_xml_files(tree)\n            self.update_format(tree)\n", expect="P6-converter-marker-between"),
     Mutant("only the tip's ancestry is fetched out", RC, "                reference_branch.repository.fetch(self.repository)\n", "                reference_branch.repository.fetch(self.repository, self.local_branch.last_revision() if self.local_branch is not None else None)\n", expect="P1-fetch-before-destroy-repository"),
     Mutant("upgrade without the target pre-flight", "breezy/upgrade.py", "        self.controldir.check_conversion_target(format)\n", "", expect="P5-upgrade-preflight"),
     Mutant("repository destroyed before the branch work", RC, "        last_revision_info = None\n        if self._destroy_reference:", "        if self._destroy_repository:\n            self.controldir.destroy_repository()\n        last_revision_info = None\n        if self._destroy_reference:", expect="P1-fetch-before-destroy-repository"),
